@@ -10,11 +10,11 @@ import (
 
 // V is a JSON value tree.
 type V struct {
-	K    string  `json:"k"` // null true false num str arr obj
-	Num  float64 `json:"num,omitempty"`
-	Raw  string  `json:"raw,omitempty"` // number literal as written
-	Str  string  `json:"str,omitempty"`
-	Elem []V     `json:"elem,omitempty"`
+	K    string   `json:"k"` // null true false num str arr obj
+	Num  float64  `json:"num,omitempty"`
+	Raw  string   `json:"raw,omitempty"` // number literal as written
+	Str  string   `json:"str,omitempty"`
+	Elem []V      `json:"elem,omitempty"`
 	Keys []string `json:"keys,omitempty"`
 }
 
